@@ -1091,7 +1091,21 @@ func ruleErrPropagate(w *World, r *Report, pkg *ssa.Package, tag string, exempt 
 						"the error value is passed on with zero results on the edge on which it is known to be nil: the function reports success with a nil result exactly when the call succeeded (inverted error test)")
 				}
 			}
-			r.Check(ea.errorOnly(fail.To()), rule, key, w.Pos(bo.Pos()),
+			// every exit behind the failing edge is an error return; a return that hands on the
+			// tested value itself is one — the value is known to be non-nil on this side, also where
+			// the returning block is shared with a path on which it was not tested (`err != nil || …`)
+			gaveUp := true
+			for blk := range reachFrom(fail.To(), nil) {
+				if len(blk.Instrs) == 0 {
+					continue
+				}
+				if ret, isRet := blk.Instrs[len(blk.Instrs)-1].(*ssa.Return); isRet {
+					if !ea.isErrorReturn(ret) && !(len(ret.Results) > 0 && ret.Results[len(ret.Results)-1] == ev) {
+						gaveUp = false
+					}
+				}
+			}
+			r.Check(gaveUp, rule, key, w.Pos(bo.Pos()),
 				"once the call has reported an error every path ends in an error return",
 				"after a call has reported an error the function can go on and return success: it continues with the zero results of the failed call (a nil node or path ends up in the diff or document and is dereferenced later) and the malformed input is not reported")
 		}
